@@ -5,6 +5,7 @@ import Cherab.Model.Notifier
 import Cherab.Gen.NotifyEdges
 import Cherab.Model.Subscription
 import Cherab.Gen.SetterEvents
+import Cherab.Gen.CacheReads
 open Cherab.Drv Cherab.NotifyGraph Cherab.CherabDeps Cherab.Gen.NotifyEdges
 
 /-- C01 driver.
@@ -14,6 +15,8 @@ open Cherab.Drv Cherab.NotifyGraph Cherab.CherabDeps Cherab.Gen.NotifyEdges
                              prints the callbacks invoked by each notify
   subs <setter> <p1> <p2> …  Subscription model: the generated event list of that setter run over the assignment history;
                              prints the providers whose notifier lists the callback afterwards (or `unknown-setter`)
+  readers <param-node>       caches whose fill functions read that parameter (generated read table `Gen/CacheReads`)
+  reads <cache>              the generated read set of that cache
 -/
 def parseEntry (s : String) : Nat × Nat :=
   match s.splitOn "." with
@@ -39,6 +42,8 @@ def step (ts : List String) : String :=
   | ["clears", p] => " ".intercalate (clearsOf nodeNames edges fuel deps p)
   | ["uncovered"] => " ".intercalate ((uncovered nodeNames edges fuel deps).map fun (c, p) => c ++ "<-" ++ p)
   | ["known", p] => fB ((idOf nodeNames p).isSome)
+  | ["readers", p] => " ".intercalate ((Cherab.Gen.CacheReads.cacheReads.filter fun e => e.2.contains p).map (·.1))
+  | ["reads", c] => " ".intercalate (depsOf Cherab.Gen.CacheReads.cacheReads c)
   | "notifier" :: ops => notifierRun ops
   | "subs" :: name :: ps =>
       match Cherab.Gen.setterEvents.find? (fun r => r.1 == name) with
